@@ -10,7 +10,7 @@ From ClapModel Require Import ParseProofs.Actions ParseProofs.Unparse ParseProof
 From ClapModel Require Import Base.Utf8 Lex.OsStrExtModel Lex.OsStrExtProofs ParseProofs.UnparseLift.
 From ClapModel Require Import ParseProofs.UnparseX ParseProofs.UnparseXProofs ParseProofs.UnparseXTree ParseProofs.UnparseXExamples.
 From ClapModel Require Import ParseProofs.Globals ParseProofs.UnparseGlobals ParseProofs.Spelling ParseProofs.UnparsePending ParseProofs.UnparseBridge.
-From ClapModel Require Import ParseProofs.Escape ParseProofs.UnparseXTrail ParseProofs.UnparseYTree ParseProofs.UnparseYExamples ParseProofs.UnparseUser ParseProofs.LoopStep ParseProofs.UnparsePendingLoop ParseProofs.UnparseXLook.
+From ClapModel Require Import ParseProofs.Escape ParseProofs.UnparseXTrail ParseProofs.UnparseYTree ParseProofs.UnparseYExamples ParseProofs.UnparseUser ParseProofs.LoopStep ParseProofs.UnparsePendingLoop ParseProofs.UnparseXLook ParseProofs.UnparseUserTree.
 From Coq Require Import ZArith Sorting.Sorted Sorting.Permutation List.
 Import ListNotations.
 Open Scope N_scope.
@@ -1026,3 +1026,33 @@ Theorem C02_lookahead_nonvacuous :
     LEx.idx_of_m [102] m2 = Some [2] /\ LEx.idx_of_m [115] m2 = Some [3]).
 Proof. exact (conj LEx.ex_hyps (conj LEx.ex_parse (conj LEx.ex_amp_hyps LEx.ex_amp_parse))). Qed.
 Print Assumptions C02_lookahead_nonvacuous.
+
+(** (2, trees) THE BRIDGE FOR WHOLE COMMAND TREES (ParseProofs/UnparseUserTree.v).  [user_tree k c0] ([k] > depth of the tree as
+    written): at EVERY node [user_conventional], no [ignore_errors], no [Built] mark in the global settings, global arguments
+    are options, no subcommand named or aliased [help].  The class is stable under what the parser does to a child before
+    building it ([_propagate_subcommand]: the parent's global settings; [_propagate_global_args]: the parent's global
+    arguments) -- [C02_user_tree_stable] -- so the class conjuncts of every level of [wf_inv] follow from the tree as written:
+    what remains ([wf_tree_body]) are the items of each level and the subcommand names. *)
+Theorem C02_user_tree_stable : forall k c0 s0, user_node c0 = true -> user_tree k s0 = true ->
+  user_tree k (prop_child c0 s0) = true.
+Proof. exact prop_child_tree. Qed.
+Print Assumptions C02_user_tree_stable.
+
+Theorem C02_bridge_tree : forall i k c0 f, user_tree k c0 = true -> valid_tree (S f) (build_self c0) = true ->
+  wf_tree_body (build_self c0) i = true -> wf_inv (build_self c0) i = true.
+Proof. exact wf_inv_of_user_tree. Qed.
+Print Assumptions C02_bridge_tree.
+
+Theorem C02_unparse_user_tree : forall c0 bin i k, is_set s_no_binary_name c0 = false -> valid (with_bin c0 bin) = true ->
+  user_tree k c0 = true -> wf_tree_body (build_self (with_bin c0 bin)) i = true ->
+  parse_top c0 (bin :: render_inv i) = finish_outcome (with_bin c0 bin) (run_inv (build_self (with_bin c0 bin)) i).
+Proof. exact parse_top_user_tree. Qed.
+Print Assumptions C02_unparse_user_tree.
+
+Theorem C02_bridge_tree_nonvacuous :
+  user_tree 3 UnparseEx.t0 = true /\
+  wf_tree_body (build_self (with_bin UnparseEx.t0 UnparseEx.tbin)) UnparseEx.tinv = true /\
+  user_tree 3 GlobEx.c0 = true /\ wf_tree_body (build_self (with_bin GlobEx.c0 GlobEx.bin)) GlobEx.ginv = true /\
+  user_tree 1 UnparseEx.t0 = false.
+Proof. exact user_tree_examples. Qed.
+Print Assumptions C02_bridge_tree_nonvacuous.
